@@ -2839,6 +2839,21 @@ func (x *SX) pureCall(f *types.Func) bool {
 					return len(a.eff[fn]) == 0
 				}
 			}
+			if f.Origin() != f {
+				// a method of an instantiated generic type (`(*self[List]).Ego`): pure if every instance of its origin is
+				n, pure := 0, true
+				for _, fn := range a.fns {
+					if o, ok := fn.Object().(*types.Func); ok && o.Origin() == f.Origin() {
+						n++
+						if len(a.eff[fn]) != 0 {
+							pure = false
+						}
+					}
+				}
+				if n > 0 {
+					return pure
+				}
+			}
 			// interface method: pure if every implementation is
 			if sig := f.Type().(*types.Signature); sig.Recv() != nil {
 				if _, isI := sig.Recv().Type().Underlying().(*types.Interface); isI {
